@@ -4,6 +4,10 @@
    within the token budget; simulation mode visits random ones.                            *)
 EXTENDS Gen, Machine
 
+(* Records compare field by field in the order in which TLC first met the field names; values
+   are [k, v] records whose kind must be compared before the payload.  The root module is read
+   first, so naming k before v here fixes the order (checked by the ASSUME in Values.tla). *)
+FieldOrder == [k |-> 0, v |-> 0]
 VARIABLES g, m, phase
 vars == <<g, m, phase>>
 
